@@ -218,6 +218,7 @@ pub fn gen_setup(rng: &mut Rng) -> Setup {
         let params = match rng.below(5) {
             0 => format!("{},{},{}", rng.below(3), rng.below(3), rng.range(-40, 40)),
             1 => "0,0,7".to_string(),
+            2 => format!("{},{},0", 1 + rng.below(2), 1 + rng.below(2)),
             _ => "0,0,0".to_string(),
         };
         user.push_str(&format!("{},{},{}\n", csv_cell(&s), params, f));
@@ -499,6 +500,69 @@ pub fn run(mode: &str, seed: u64, n: usize, out: &mut dyn Write) {
             _ => false,
         };
         writeln!(out, "train {id}.b GEN {} {} IMPL {} ## {}", hex(&image), hex(user), obs_b, flags(&s, rt_b, &g3)).unwrap();
+        // synthetic raw models: the trained image with transformed weights (sign patterns, one dominating
+        // weight, cancellation, very small / very large magnitudes)
+        if let Some(Ok(mut ms)) = guarded(|| Model::read_model(&image[..]).map_err(|_| ())) {
+            let variants = if mode == "full" { 3 } else { 1 };
+            for v in 0..variants {
+                let kind = rng.below(7);
+                let j = rng.below(64);
+                let salt = rng.next();
+                // kind 6: two templates cancel each other (+H / -H), everything else is tiny, so single
+                // bigram weights exceed every merged weight (bigram.cost entries beyond 16 bits)
+                let mut tmpl: std::collections::HashMap<usize, u8> = std::collections::HashMap::new();
+                if kind == 6 {
+                    let table = vibrato::trainer::verif::bigram_weight_table(&ms);
+                    let pre = |l: &str, r: &str| -> String {
+                        let x = if l.is_empty() { r } else { l };
+                        x.chars().take(2).collect()
+                    };
+                    let mut names: Vec<String> = table.iter().map(|(l, r, _)| pre(l, r)).collect();
+                    names.sort();
+                    names.dedup();
+                    // templates without optional (`?`) fields are defined for every class: prefer them
+                    let total: Vec<String> = names.iter().filter(|n| ["b1", "b5", "b6", "b7", "b8"].contains(&n.as_str())).cloned().collect();
+                    if total.len() >= 2 && rng.below(4) != 0 {
+                        names = total;
+                    }
+                    if names.len() >= 2 {
+                        let a = names[rng.below(names.len())].clone();
+                        let mut b = names[rng.below(names.len())].clone();
+                        if a == b {
+                            b = names[(names.iter().position(|x| *x == a).unwrap() + 1) % names.len()].clone();
+                        }
+                        for (l, r, i) in &table {
+                            let p = pre(l, r);
+                            if p == a {
+                                tmpl.insert(*i, 1);
+                            } else if p == b {
+                                tmpl.insert(*i, 2);
+                            }
+                        }
+                    }
+                }
+                let f = move |i: usize, w: f64| -> f64 {
+                    let h = (i as u64).wrapping_mul(0x9E3779B97F4A7C15) ^ salt;
+                    match kind {
+                        6 => match tmpl.get(&i) {
+                            Some(1) => 5.0 + w * 0.05,
+                            Some(2) => -5.0 + w * 0.05,
+                            _ => w * 0.05,
+                        },
+                        0 => if h & 1 == 0 { w } else { -w },
+                        1 => if i % 64 == j { w * 40.0 + 3.0 } else { w },
+                        2 => if i % 2 == 0 { w * 3.0 + 0.5 } else { -(w * 3.0 + 0.5) },
+                        3 => w * 1e-13,
+                        4 => w * 1e6,
+                        _ => ((h >> 8) % 2001) as f64 / 100.0 - 10.0,
+                    }
+                };
+                if let Some(Ok(img)) = guarded(|| vibrato::trainer::verif::write_model_with_weights(&mut ms, &f)) {
+                    let (obs_s, gs) = observe_gen(&img, None);
+                    writeln!(out, "train {id}.s{v} GEN {} none IMPL {} ## {} SYNTH={kind}", hex(&img), obs_s, flags(&s, true, &gs)).unwrap();
+                }
+            }
+        }
         // image written after the user lexicon was read (user_entries are not part of it)
         if mode == "full" || made % 4 == 1 {
             let mut image2 = vec![];
